@@ -73,12 +73,16 @@ def run_case(case, tier):
                         ("homekill", hk), ("transfer_in", tin), ("retirements", out)):
             arr = np.asarray(arr, float)
             if arr.size and arr.min() < -1e-9 * max(1.0, pop.max()):
-                mech = "negative_stock_or_flow"
-                if nm == "births" and getattr(a, "births_animals_month_baseline", 0) < 0 and a.animal_function != "milk":
+                neg = np.where(arr < -1e-9 * max(1.0, pop.max()))[0]
+                if nm == "births" and getattr(a, "births_animals_month_baseline", 0) < 0 and a.animal_function != "milk" and neg[0] == 0:
                     # the meat herd's baseline births are computed as a residual (deaths + slaughter - calves and retirees
-                    # received from the dairy herd of the species) and are negative when the dairy transfers exceed the turnover
-                    mech = "negative_baseline_births_of_meat_herd"
-                bad(mech, "%s %s month %d = %.6g" % (a.animal_type, nm, int(arr.argmin()), arr.min()), species=a.animal_type, flow=nm)
+                    # received from the dairy herd of the species) and are negative when the dairy transfers exceed the turnover;
+                    # they are what month 0 records - and only month 0: later months are computed from the pregnant animals
+                    bad("negative_baseline_births_of_meat_herd", "%s births month 0 = %.6g" % (a.animal_type, arr[0]), species=a.animal_type, flow=nm, month=0)
+                    neg = neg[1:]
+                if len(neg):
+                    m = int(neg[np.argmin(arr[neg])])
+                    bad("negative_stock_or_flow", "%s %s month %d = %.6g" % (a.animal_type, nm, m, arr[m]), species=a.animal_type, flow=nm, month=m)
         if not np.isfinite(pop).all():
             bad("non_finite_population", "%s population not finite" % a.animal_type, species=a.animal_type)
         if a.animal_function != "milk" and a.animal_species in bymilk:
